@@ -3,6 +3,10 @@
 import json
 
 CLAIMS = {
+ "C18": dict(cat="model_checking", design="6 C18",
+  text="On the real v2 interpreter with probe functions returning zero, one and two values: every one of 52 value positions x 7 no-value constructs x 10 preceding statements (a stale register is distinguishable by construction), every tuple assignment of up to 3 targets and sources, the whole C02 operator table and probed trees, the C04 slice table, index paths and aliasing sequences and every control-flow program of size <=3 are compared with the reference interpreter in its v2 dialect. About 2 million programs in the quick tier, enumerated completely.",
+  note="Functions are assumed to declare their return values in FnDesc.Returns. v1 is not run side by side; both are compared against the same reference in their own checks.",
+  tech="bounded-exhaustive program enumeration on the real v2 interpreter vs reference interpreter (v2 dialect)"),
  "C08": dict(cat="model_checking", design="6 C08",
   text="89 syntactic positions (every slice bound in every form, every index level, both sides of all assignment kinds, every for clause, named/positional arguments at depth, map keys, deep blocks, ...) x 408 offenders (unknown function, every wrong arity 0..4 and every forbidden argument kind of each of 22 builtins) are loaded through the real check pass; v2 gets unknown functions and every unbindable call shape; break/continue in 12 placements on both passes; 44 reduced function tables. Rejected iff an offender is present, the first error position must lie inside the offender, and every valid call of every builtin must load in every position.",
   note="The per-builtin rules come from a reference table written from the function documentation and checkers (DESIGN.md appendix A). One offender per program.",
